@@ -547,7 +547,11 @@ class dir_archive(archive):
         "get a list of subdirectories in the root directory"
         dirs = walk(self.__state__['id'],patterns=PREFIX+'*',recurse=False,folders=True,files=False,links=False)
         # a staging directory (of a store in progress, or left by a killed one) is not an entry
-        return [d for d in dirs if not os.path.basename(d).startswith(PREFIX+TEMP)]
+        return [d for d in dirs if not self._isstaging(os.path.basename(d))]
+    def _isstaging(self, name):
+        "check if name has the form of a staging directory: PREFIX+TEMP+md5"
+        name = name[len(PREFIX+TEMP):] if name.startswith(PREFIX+TEMP) else ''
+        return len(name) == 32 and not name.strip('0123456789abcdef')
     def _hasinput(self, root):
         "check if results subdirectory has stored input file"
         return bool(walk(root,patterns=self._args,recurse=False,folders=False,files=True,links=False))
